@@ -104,7 +104,8 @@ class ClassicalGate(Box):
         if self.data is None:
             return lambda *xs: self
         from sympy import lambdify
-        data = lambdify(symbols, self.data, dict(kwargs, modules=Tensor.np))
+        data = lambdify(
+            symbols, self.data.tolist(), dict(kwargs, modules=Tensor.np))
         return lambda *xs: ClassicalGate(
             self.name, self.dom, self.cod, data(*xs), _dagger=self._dagger)
 
